@@ -165,7 +165,7 @@ class Check:
         self.violation_paths.append((p, why))
 
     def known_finding(self, signature, what):
-        line = "KNOWN-FINDING: property=%s %s" % (self.prop, what)
+        line = "KNOWN-FINDING: property=%s %s" % (self.prop, " ".join(what.split()))
         if line not in self.known_lines:
             self.known_lines.append(line)
 
